@@ -83,7 +83,7 @@ def run_solve(case):
     spec = case["spec"]
     n_ops = sum(len(j) for j in spec)
 
-    def one_run(clock):
+    def one_run(clock, warm_k=None):
         instance = common.build_instance(spec)
         steps = []
         inner_rule = rule_callable(case["rule"], shared=case["seed"] % 2 == 1)
@@ -119,7 +119,17 @@ def run_solve(case):
             base_solver.time = FakeTime
         try:
             try:
-                schedule = solver(instance)
+                if warm_k is not None:
+                    # solve(instance, dispatcher) with a dispatcher the caller has already used: its first warm_k
+                    # operations were dispatched by the solver's own step() (so the whole run is a solver run)
+                    from job_shop_lib.dispatching import Dispatcher
+
+                    d = Dispatcher(instance, ready_operations_filter=solver.ready_operations_filter)
+                    for _ in range(min(warm_k, n_ops)):
+                        solver.step(d)
+                    schedule = solver.solve(instance, d)
+                else:
+                    schedule = solver(instance)
                 out = {"exn": 0, "rows": rows_of(schedule), "complete": int(schedule.is_complete()),
                        "elapsed": schedule.metadata.get("elapsed_time"),
                        "solved_by": [ord(c) for c in str(schedule.metadata.get("solved_by"))],
@@ -139,6 +149,8 @@ def run_solve(case):
         real["elapsed"] = None
     fake = one_run(case["clock"])
     out = {"real": real, "fake": fake}
+    if case.get("warm_k") is not None:
+        out["warm"] = one_run(None, case["warm_k"])
     if case["seed"] % 5 == 0:
         out["nested"] = nested_call(case)
     return out
@@ -364,9 +376,13 @@ class C04(Check):
                                    allow_empty_jobs=rng.random() < 0.1, big=rng.random() < 0.15,
                                    huge=rule < 4 and rng.random() < 0.3, p_all_huge=0.5)
         t0 = rng.randint(0, 1000)
-        return {"kind": "solve", "spec": spec, "rule": rule, "chooser": rng.randrange(2),
+        case = {"kind": "solve", "spec": spec, "rule": rule, "chooser": rng.randrange(2),
                 "filters": self.gen_filters(rng), "seed": rng.randrange(10 ** 6),
                 "clock": [t0, t0 + rng.choice([0, 1, 7, rng.randint(0, 10 ** 6)])]}
+        if rng.random() < 0.3:
+            case["warm_k"] = rng.randint(0, sum(len(j) for j in spec))
+            self.note("solve_called_with_a_used_dispatcher")
+        return case
 
     def gen_sfuns(self, rng, scorers):
         pool = [[0], [1], [2], [4]]
@@ -506,6 +522,10 @@ class C04(Check):
             draws.append([avail.index(sel) if sel in avail else 0, machines.index(m) if m in machines else 0])
         reqs.append((403, [spec, fs, min(case["rule"], 4) if case["rule"] != 5 else 2, case["chooser"], draws,
                            case["clock"][0], case["clock"][1]]))
+        if "warm" in obs:
+            run = obs["warm"]
+            reqs.append((401, [spec, fs, spec_rule, case["chooser"], [[s[1], s[2]] for s in run["steps"]]]))
+            reqs.append((3, [spec, [run.get("rows", [])]]))
         return reqs
 
     # ---- judgement --------------------------------------------------------------
@@ -519,6 +539,9 @@ class C04(Check):
             replay, clauses = outs[2 * idx], outs[2 * idx + 1][0]
             self.judge_run(case, name, run, replay, clauses, n_ops, fails)
         call = outs[4]
+        if "warm" in obs:
+            self.judge_run(case, f"solve(instance, dispatcher with {case['warm_k']} operations already dispatched)",
+                           obs["warm"], outs[5], outs[6][0], n_ops, fails)
         # metadata
         real, fake = obs["real"], obs["fake"]
         if real["exn"] == 0:
@@ -684,6 +707,10 @@ class C04(Check):
     def shrink_candidates(self, case):
         spec = case["spec"]
         if case["kind"] == "solve":
+            if case.get("warm_k") is not None:
+                yield {k: v for k, v in case.items() if k != "warm_k"}
+                if case["warm_k"] > 1:
+                    yield dict(case, warm_k=1)
             if case["filters"] not in ("default", []):
                 yield dict(case, filters=case["filters"][:-1])
             if case["filters"] == "default":
